@@ -23,9 +23,9 @@ GARBAGE = ('nan', 'huge', 'stale', 'inf', 'denormal', 'zero')
 SHIPPED = (100, 50000)
 
 TIERS = {
-    'C01': {'quick': {'runs': 40000, 'budget_s': 100, 'chunk': 100},
+    'C01': {'quick': {'runs': 80000, 'budget_s': 100, 'chunk': 100},
             'thorough': {'runs': 2400000, 'budget_s': 1800, 'chunk': 400}},
-    'C17': {'quick': {'runs': 60000, 'budget_s': 100, 'chunk': 200},
+    'C17': {'quick': {'runs': 120000, 'budget_s': 100, 'chunk': 200},
             'thorough': {'runs': 4000000, 'budget_s': 1800, 'chunk': 1000}},
 }
 
